@@ -21,7 +21,7 @@ from concurrent.futures import ThreadPoolExecutor
 from ..common import Run, MachineryError, quiet_pygaps, exc_class
 from .. import tlc
 from ..encode import dec_dec
-from ..models_common import frac, fpar, par_key, build, denc as dec_enc
+from ..models_common import frac, fpar, par_key, build, denc as dec_enc, history_records
 
 PID = "C11"
 TOL_CLOSED = 1e-9     # analytic antiderivatives of the library
@@ -76,14 +76,17 @@ class Batch:
         for h, a in zip(self.handlers, answers):
             h(a)
         run.add("traces_validated_against_impl", len(self.recs))
-        for kind in ("geo", "pt"):
+        for kind in ("geo", "pt", "hist"):
             idx = [i for i, r in enumerate(self.recs) if r["k"] == kind]
             if idx:
                 k = idx[rng.randrange(len(idx))]
                 r = dict(self.recs[k])
                 if kind == "geo":
                     r["pts"] = r["pts"][:3] + ["..."] + r["pts"][-2:]
-                run.sample({"kind": f"observation record judged by SpreadingOracle ({'GeoStep' if kind == 'geo' else 'PtStep'})", "record": r, "answer": answers[k]})
+                if kind == "hist":
+                    r["evals"] = r["evals"][:2] + ["..."]
+                run.sample({"kind": "observation record judged by SpreadingOracle (%s)" % {"geo": "GeoStep", "pt": "PtStep", "hist": "HistStep"}[kind],
+                            "record": r, "answer": answers[k]}, limit=8)
 
 
 def _noval(o):
@@ -441,12 +444,22 @@ def main(tier, seed):
     relational(run, grid, meta, rng, thorough, batch)
     model_isotherm_units(run, meta, rng, thorough, batch, fac)
     point_isotherms(run, scen, meta, rng, thorough, batch, fac)
+    plans = tlc.oracle("SpreadingOracle", [{"k": "histplan"}], timeout=600)[0]["plans"]
+    nh = 0
+    for model in sorted(plans):
+        for rec, handler in history_records(run, plans[model], model, "loading", [("loading", "args"), ("spreading_pressure", "args")],
+                                            ("scalar",), 5 if thorough else 2, rng):
+            batch.add(rec, handler)
+            nh += 1
+    run.set(histories_replayed=nh)
     batch.flush(run, rng)
 
     run.set(exhaustive=False,
             rule="(a) symbolic integrals of spec/Spreading.tla on the exact grid (11 models with an elementary integral, 223 parameter vectors x 4-6 pressures + the zero point) "
                  "evaluated in float64 against spreading_pressure(); (b) geometric pressure grids (16 points per octave, 12 octaves, 2 top pressures) for "
                  + ("all" if thorough else "a seeded fifth (at least 3 per model) of the") + " general parameter vectors of all 13 models, judged by TLC with Simpson sums; "
+                 "(b2) histories on one model object (evaluate, another instance of the class, every parameter overwritten in place, re-fit in place; same pressures "
+                 "re-evaluated after each step) for " + ("5" if thorough else "2") + " seeded parameter-vector pairs per model, judged against a fresh model (Models!HistStep); "
                  "(c) ModelIsotherm.spreading_pressure_at for 4 models x 2 native modes x 6 pressure representations; (d) "
                  + ("all 475" if thorough else "90 seeded") + " enumerated point-isotherm data sets x every query class (below range, first point, inside, data point, edge) "
                  "x native / foreign pressure unit or mode / loading unit. non-trivial = positive pressure (a) / query beyond the Henry segment (d); "
